@@ -514,7 +514,6 @@ def run(rep, tier_, rng):
             insts += build_instances(cid, spec, case, yq, prec, regime, want_rint, method)
         except (cert.EstimateError, ZeroDivisionError, ValueError) as ex:
             stats.setdefault("skipped_estimate", 0); stats["skipped_estimate"] += 1
-        cert_keep = None
     tgen = time.time() - t0
     regimes = {}
     for c in calls.values():
